@@ -25,7 +25,7 @@ _c14 = C14()
 class C15(Machine):
     ID = "C15"
     LEVEL = "fault_enumeration"
-    FAMILY_WEIGHTS = {"sparse": 3, "dense": 1, "canal": 3, "modular": 4, "maa": 2}
+    FAMILY_WEIGHTS = {"sparse": 3, "dense": 1, "canal": 3, "modular": 4, "maa": 2, "cascade": 3}
     NMAX = {"quick": 6, "thorough": 7}
     RULE = "one evaluation = one sampled (network, prefix, operation) whose fault space is enumerated: every size limit 1..final size+1, every level/stack limit 0..depth+1, a solver failure at every clingo fault point (all while <=64, seeded sample of 64 beyond), configured limits at and below the actual counts; distinct = distinct event-log digest; non-trivial = at least 3 interrupted attempts of which at least one really stopped early or raised"
 
@@ -65,6 +65,24 @@ class C15(Machine):
         if w.log[0]["out"]["cls"] != "ok":
             return None
         P = []
+        k = p["kind"]
+        if k in ("bfs", "dfs") and rng.random() < 0.7:
+            # partial expansions from the root, so that the limited call later meets regions
+            # that are already expanded above unexpanded ones
+            for _ in range(rng.randint(1, 3)):
+                r = rng.random()
+                if r < 0.4:
+                    op = {"op": "bfs", "node": None, "level": rng.choice([0, 1, 1, 2]), "size": None}
+                elif r < 0.7:
+                    op = {"op": "dfs", "node": None, "stack": rng.choice([1, 2, 3]), "size": None}
+                else:
+                    op = {"op": "expand_one", "node": w.space_of(rng.choice(w.node_ids()))}
+                out = w.apply(op)
+                if out["cls"] == "budget_exceeded":
+                    return None
+                P.append(op)
+            p = dict(p)
+            p["prefix"] = 0
         for _ in range(p["prefix"]):
             if rng.random() < p["p_attr"]:
                 op = attr_op(w, rng)
@@ -74,9 +92,8 @@ class C15(Machine):
             if out["cls"] == "budget_exceeded":
                 return None
             P.append(op)
-        k = p["kind"]
         nid = pick_node(w, rng)
-        node = w.space_of(nid) if rng.random() < 0.5 else None
+        node = w.space_of(nid) if rng.random() < 0.35 else None
         if k == "bfs":
             O = {"op": "bfs", "node": node, "level": None, "size": None}
         elif k == "dfs":
